@@ -458,6 +458,21 @@ def gen(rng, tier):
     cases.append(mk("cli", ("map", [("imports", "", ("seq", [("s", "base", "")], False)),
                                     ("values", "", ("map", [("a", "", ("s", "1", ""))], False))], False),
                     [S(["imports", 1], "more"), R(["imports", 0]), R(["imports", 0]), R(["imports", 0]), R(["imports"])]))
+    # ---- definitions that lack one of the two top-level keys: `imports` paths are addressed from the root of the
+    # definition, whether or not there is a `values` key (and the other way round) -- catches C15-k
+    only_imports = ("map", [("imports", "", ("seq", [("s", "a", ""), ("s", "b", "")], False))], False)
+    imports_other = ("map", [("imports", "", ("seq", [("s", "a", ""), ("s", "b", "")], False)),
+                             ("other", "", ("s", "1", ""))], False)
+    only_values = ("map", [("values", "", ("map", [("a", "", ("s", "1", "")), ("l", "", ("seq", [("s", "x", "")], False))],
+                                          False))], False)
+    for d in (only_imports, imports_other):
+        for ops in ([R(["imports", 0])], [R(["imports", 1])], [R(["imports", 0]), R(["imports", 0])], [R(["imports"])],
+                    [S(["imports", 2], "c"), R(["imports", 0])], [R(["a"])], [R(["a", "b"])],
+                    [S(["a"], "1"), R(["imports", 0]), R(["a"])], [R(["imports", 5])]):
+            cases.append(mk("cli", d, ops))
+    for ops in ([R(["imports", 0])], [R(["imports"])], [S(["imports", 0], "base"), R(["a"]), R(["imports", 0])],
+                [R(["a"]), R(["l", 0]), R(["l"]), R(["imports"])]):
+        cases.append(mk("cli", only_values, ops))
     cases.append(mk("cli", None, [{"op": "set", "path": "a.b", "ipath": ["a", "b"], "value": "x"},
                                   {"op": "set", "path": "pw", "ipath": ["pw"], "value": "hunter2", "secret": True},
                                   {"op": "set", "path": "n", "ipath": ["n"], "value": "12", "secret": True},
